@@ -193,6 +193,15 @@ def gen_history(r, name, malformed=False):
             continue
         a2 = r.random()
         if e["new"]:
+            if x["wr"] and len(sh.handles_on(x["f"], x["key"])) == 1 and r.random() < 0.4:
+                # position a data-less element before its first write: an extendable one becomes an (empty)
+                # linked-block element, any other one must refuse to move
+                t = r.choice([0, 1, 3, 7, 12])
+                lines.append("seek %d %d %d" % (s, t, r.choice([0, 1])))
+                if t > 0 and x["app"]:
+                    e.update(new=False, linked=True, len=0, hi=0)
+                    x["pos"] = t
+                continue
             if x["wr"] and len(sh.handles_on(x["f"], x["key"])) == 1:
                 n = pick_len(r)
                 lines.append("write %d %s" % (s, hexs(rbytes(r, n))))
